@@ -367,6 +367,11 @@ void LibWorld::settle() {
 
 void LibWorld::advance_ms(int64_t ms) { K->advance_ms(ms); tr.ev("adv %lld", (long long)ms); }
 
+void LibWorld::poke_dispatch(DBusConnection *c) {
+  if (dbus_connection_get_dispatch_status(c) == DBUS_DISPATCH_DATA_REMAINS)
+    while (!_dbus_loop_queue_dispatch(loop, c)) {}
+}
+
 void LibWorld::stop() {
   K->faults_enabled = false;
   _dbus_set_fail_alloc_counter(_DBUS_INT_MAX);
